@@ -14,4 +14,16 @@ while IFS=$'\t' read name pid file note; do
   if echo "$r" | grep -qE "^VIOLATION property=$pid"; then v="VIOLATION"; elif echo "$r" | grep -q "^ERROR"; then v="tool error (exit 2)"; else v="**held**"; fi
   echo "| $name | $pid | $note ($file) | $suite | $v |" | tee -a $OUT.tmp
 done < mutants/index.tsv
+echo >> $OUT.tmp; echo "Benign changes (no property is broken: every listed check must hold):" >> $OUT.tmp; echo >> $OUT.tmp
+echo "| change | what | checks run | outcome |" >> $OUT.tmp
+echo "|---|---|---|---|" >> $OUT.tmp
+while IFS=$'\t' read name pids file note; do
+  bad=""
+  for pid in $pids; do
+    r=$(MUT_LINES=60 tools/mutant.sh mutants/$name.diff $pid $TIER 2>&1)
+    echo "$r" | grep -qE "^$pid $TIER: held" || bad="$bad $pid"
+  done
+  [ -z "$bad" ] && v="all held" || v="**alarm or error in:$bad**"
+  echo "| $name | $note ($file) | $pids | $v |" | tee -a $OUT.tmp
+done < mutants/benign.tsv
 mv $OUT.tmp $OUT
